@@ -46,3 +46,21 @@ claimed["C17"] = dict(
     text="In every reachable state no staged path lies inside .goit; every add leaves exactly the model's staging area (ignored and metadata paths never staged, nothing else skipped; with no ignore file every file outside .goit is staged by 'add .'); status hides exactly ignored and metadata paths; reset --hard and restore change nothing inside .goit except index, current branch and logs.",
     note="Trusted: gitfmt, engine/model.go ignore rules (unambiguous cases only).",
 )
+claimed["C10"] = dict(
+    category="model_checking",
+    technique="explicit state space of the branch/HEAD machine: BFS over branch create/delete/rename, switch, switch -c, update-ref, commit, reset with prefix-related names (a, ab, a-b, a.b, b, main); every transition compared with a map model, branch --list and rev-parse probed in every state",
+    text="For every reachable state within the depth bound: each operation changed exactly the branch map entry and HEAD name the model prescribes (update-ref never moves HEAD; nested or unknown refs, non-commit ids, duplicates, the current branch for -d are refused), a refused operation left the complete disk state unchanged, branch --list printed exactly the sorted stored names with the marker on HEAD's branch and rev-parse printed exactly the stored ids.",
+    note="Trusted: gitfmt, engine/model.go. Nothing is explored beyond the depth bound (no random walks: different family).",
+)
+claimed["C11"] = dict(
+    category="model_checking",
+    technique="explicit-state BFS over commit (9 message shapes: ': ', tab, several lines, 3-word continuation, edge blanks, non-ASCII) / switch / switch -c / reset / branch rename / delete histories incl. a 12-entry journal; reflog probed before and after every transition (differential append-only check) and reset --soft HEAD@{n} probed for every n in every state",
+    text="For every reachable state: reflog exits 0 and lists one well-formed entry per position; across every transition the earlier entries reappear unchanged and in order, shifted by the number of new entries; after a successful commit/switch/reset HEAD@{0} shows the commit HEAD resolves to with the action kind; reset HEAD@{n} lands on the commit reflog shows at n for every n (positions >= 10 included); entries that record no commit are refused without change.",
+    note="Trusted: the reflog output parser (id7, position, kind, message fields), gitfmt. Identity and time-zone variation of the log line is exercised by C12's TZ sweep, not here.",
+)
+claimed["C08"] = dict(
+    category="model_checking",
+    technique="explicit-state BFS over histories (commit, switch, switch -c, earlier resets, rename) and worktree perturbations; in every state every reflog position 0..len (incl. >= 10, zero-id, out of range) x {soft, mixed, hard, default, soft+hard} plus malformed arguments is executed and judged against the reflog shown before the reset and independently decoded snapshots",
+    text="For every reachable state and every position/mode: a valid reset moved exactly the current branch to the commit reflog displayed at that position, HEAD and other branches unchanged; --soft changed neither index nor files; --mixed/default made the index equal the target snapshot and changed no file; --hard additionally made every snapshot file exist with the committed bytes (missing directories recreated) and left never-tracked files untouched; malformed, out-of-range, two-mode and no-commit positions were refused with the disk state unchanged.",
+    note="Trusted: gitfmt, reflog output parser. Files tracked before but absent from the target snapshot are left open under --hard (the statement does not say).",
+)
